@@ -197,6 +197,14 @@ func generateWrappers(
 			return err
 		}
 		in0Type, reflective := getInZero(fv)
+		// positions of the values returned from below: when inner() is called more
+		// than once, later calls run on a copy and their returned values are copied back
+		upIndexes := make([]int, 0, len(fm.mustZeroIfInnerNotCalled))
+		for _, tc := range fm.mustZeroIfInnerNotCalled {
+			if i, ok := upVmap[tc]; ok && i >= 0 {
+				upIndexes = append(upIndexes, i)
+			}
+		}
 		fm.wrapWrapper = func(v valueCollection, next func(valueCollection)) {
 			vCopy := v.Copy()
 			var callCount int32
@@ -222,7 +230,14 @@ func generateWrappers(
 				if !fm.parallel {
 					callCount++
 					if callCount > 1 {
-						v = vCopy.Copy()
+						// do not re-assign v: the caller's collection must see the
+						// values returned by the most recent call and by this wrapper
+						cv := vCopy.Copy()
+						r := common(cv)
+						for _, i := range upIndexes {
+							v[i] = cv[i]
+						}
+						return r
 					}
 					return common(v)
 				}
